@@ -38,6 +38,8 @@ Corpus == {
   <<"all", <<1, 1>>, El("a", "Color", 1, 1), Nil(El("b", "Kid", 0, 1)), NoC, "urn:t", "qualified", FALSE, 5, "complex">>,
   <<"choice", <<1, 1>>, El("a", "date", 1, 1), [El("g", "string", 1, 1) EXCEPT !.ref = TRUE], CD("seq", <<1, 1>>, 0), "urn:t", "unqualified", FALSE, 2, "complex">>,
   <<"seq", <<0, 1>>, El("a", "decimal", 1, U), El("b", "string", 1, 1), CD("seq", <<1, U>>, 1), "urn:t", "qualified", TRUE, 4, "complex">>,
+  <<"seq", <<1, 1>>, El("a", "IntsAnon", 1, 1), El("b", "int", 0, 1), NoC, "urn:t", "qualified", FALSE, 1, "complex">>,             \* anonymous restricted list
+  <<"choice", <<1, U>>, El("a", "IntsAnon", 0, U), El("b", "Ints", 1, 1), NoC, NONE, "unqualified", TRUE, 2, "complex">>,
   <<"seq", <<1, 1>>, El("a", "boolean", 1, 1), El("b", "int", 1, 1), NoC, "urn:t", "qualified", TRUE, 4, "simpleContent">> }
 InitCorpus == \E c \in Corpus, i \in 0..MaxDocIdx : parts = Append(c, i)
 
